@@ -14,7 +14,8 @@ R06.1  base type: B / K push exactly one value on top of the unconsumed input (a
 R06.2  z / o: consumes exactly 0 / 1 elements on every non-aborting input; n: satisfied only with >= 1 consumed
        element and a non-zero top
 R06.3  u: satisfied => exactly 1;  d: some signature-free input leaves 0
-R06.4  s: every success checked a signature;  f (no dissatisfaction): no signature-free input leaves 0"""
+R06.4  s: every success checked a signature;  f (no dissatisfaction): no signature-free input leaves 0
+R06.5  composition: canonical satisfactions / dissatisfactions of accepted fragments leave non-zero / zero"""
 
 import itertools
 import os
@@ -36,7 +37,8 @@ WR = "asc dvjntlu".replace(" ", "")
 
 def leaves(ctx):
     ls = ["0", "1", "pk_k(A)", "pk_h(A)", "pk(A)", "pkh(A)", "older(5)", "after(9)", "sha256(H)", "hash160(G)"]
-    ls += ["multi(1,A,B)", "multi(2,A,B,C)"] if ctx != "tap" else ["multi_a(1,A,B)", "multi_a(2,A,B,C)"]
+    ls += ["multi(1,A,B)", "multi(2,A,B,C)", "sortedmulti(2,C,A,B)"] if ctx != "tap" else \
+        ["multi_a(1,A,B)", "multi_a(2,A,B,C)", "sortedmulti_a(1,B,A)", "sortedmulti_a(2,C,A,B)"]
     return ls
 
 
@@ -72,6 +74,9 @@ def candidates(ctx, tier):
                 out.append("thresh(%d,pk(A),%s)" % (k, a))
     out.append("thresh(1,pk(A))")
     out.append("thresh(2,older(5),s:pk(B),a:pk(C))")
+    for k in (1, 2):
+        out += ["thresh(%d,l:older(5),s:pk(B))" % k, "thresh(%d,u:older(5),s:pk(B),a:pk(C))" % k,
+                "thresh(%d,or_i(older(5),0),a:sha256(H))" % k, "thresh(%d,pk(A),sl:older(5))" % k]
     seen, res = set(), []
     for t in out:
         if t not in seen:
@@ -141,7 +146,7 @@ def _work(args):
     return ctx, typed, runs, out
 
 
-RULE = {"B": "R06.1", "V": "R06.1", "K": "R06.1", "W": "R06.1", "z": "R06.2", "o": "R06.2", "n": "R06.2", "u": "R06.3",
+RULE = {"canonical": "R06.5", "B": "R06.1", "V": "R06.1", "K": "R06.1", "W": "R06.1", "z": "R06.2", "o": "R06.2", "n": "R06.2", "u": "R06.3",
         "d": "R06.3", "s": "R06.4", "f": "R06.4"}
 
 
@@ -156,6 +161,8 @@ def run(chk):
     chk.rule("R06.2", "z / o / n describe the consumed input")
     chk.rule("R06.3", "u: satisfied leaves exactly 1; d: a signature-free dissatisfaction exists")
     chk.rule("R06.4", "s: success needs a checked signature; f: no signature-free way to leave 0")
+    chk.rule("R06.5", "composition: the specification's canonical satisfaction of every accepted B / W fragment leaves a "
+                      "non-zero value and its canonical dissatisfaction leaves 0 (the shapes the combinators assume)")
     TS.selftest()
     T_ = Typer(F)
     chk.saw(T_.ft, F.fn("type_check", file="miniscript/types/mod.rs"))
@@ -185,7 +192,7 @@ def run(chk):
         chk.fail(rule, "%s|%s" % (lab, c), "%d fragment(s) whose `%s` label is contradicted by execution; first: %s: %s"
                  % (len(items), lab, items[0][0], items[0][1]), where="src/miniscript/types/correctness.rs",
                  detail=items[:12])
-    for rule in ("R06.1", "R06.2", "R06.3", "R06.4"):
+    for rule in ("R06.1", "R06.2", "R06.3", "R06.4", "R06.5"):
         if not any(k[0] == rule for k in bad):
             chk.ok(rule)
     chk.extra["R06_typed_fragments"] = typed
